@@ -12,8 +12,8 @@ import (
 
 func init() {
 	fw.Register(&fw.Property{
-		ID:    "C14",
-		Level: "exploration",
+		ID:     "C14",
+		Level:  "exploration",
 		Jitter: true,
 		Rule: "abstract annotations of named coding features (forward/reverse, 1-3 segments with split codons, codon_start 1-3, overlapping, slippage joins) rendered both as a GenBank flat file (a..b, join, complement, complement(join), join(complement,...)) and as GFF3 CDS rows sharing an ID with spec-correct phase and ##FASTA; the same FASTA or SAM alignment is run under both and the per-sequence mutation multisets compared; " +
 			"distinct non-trivial = distinct (form, location forms present, strands, split-codon continuation present, codon_start set) of cases whose outputs contain at least one aa record",
@@ -46,7 +46,7 @@ func runC14(c *fw.Ctx, idx int) fw.Result {
 	if r.Chance(0.3) {
 		form = "sam"
 	}
-	opts := gen.AnnoOpts{MaxFeats: 5, AllowUnnamed: false, AllowSlip: true, SplitCodons: true, Isoforms: true, Rotate: true, NoStop: true}
+	opts := gen.AnnoOpts{MaxFeats: 5, AllowUnnamed: false, AllowSlip: true, SplitCodons: true, Isoforms: true, Rotate: true, NoStop: true, DupNames: true}
 	vp := gen.DefaultVarProfile()
 	if r.Chance(0.4) {
 		vp.PDel, vp.MaxInsSites = 0.05, 5
